@@ -5,6 +5,7 @@ import (
 	"go/constant"
 	"go/token"
 	"go/types"
+	"strings"
 
 	"golang.org/x/tools/go/ssa"
 
@@ -29,6 +30,7 @@ func c02(c *Ctx) {
 	c02users(c)
 	// the rolling window whose sums the decision is computed from (same structure rules as C16.R5)
 	c16windowAs(c, "C02.R8")
+	c02windowScale(c)
 }
 
 func loadCall(name string) px.Pred {
@@ -659,4 +661,71 @@ func c02users(c *Ctx) {
 		})
 	}
 	c.R.Min(rule, 2, "SheddingHandler, UnarySheddingInterceptor")
+}
+
+// c02windowScale: the capacity estimate's scale (buckets per millisecond) is computed in floating point.
+func c02windowScale(c *Ctx) {
+	rule := "C02.R3"
+	f := c.fn(rule, "core/load", "NewAdaptiveShedder")
+	if f == nil {
+		return
+	}
+	ps := c.paths(rule, f, px.Config{MaxVisits: 2})
+	seen := 0
+	held := c.forall(rule, "core/load.NewAdaptiveShedder#windowScale", "windowScale = (one second / bucket duration) / 1000 — buckets per millisecond — with every division carried out in floating point (an integer division of the two durations truncates: any bucket duration that does not divide one second shrinks the capacity estimate, and a bucket longer than a second makes it zero)", f, ps, func(p *px.Path) (bool, string) {
+		for _, e := range p.All(px.KindIs(px.EvStore)) {
+			if !px.FieldAddrIs(e.Addr, "windowScale", nil) {
+				continue
+			}
+			seen++
+			var bad string
+			// the bucket duration itself (also the rolling windows' interval) is a leaf
+			leaf := map[*px.Sym]bool{}
+			for _, ce := range p.All(px.KindIs(px.EvCall)) {
+				if ce.Call.Static != nil && strings.HasPrefix(ce.Call.Static.Name(), "NewRollingWindow") {
+					for _, a := range ce.Call.Args {
+						leaf[a.Strip(true)] = true
+					}
+				}
+			}
+			var walk func(s *px.Sym, d int)
+			walk = func(s *px.Sym, d int) {
+				if s == nil || d > 8 || bad != "" || leaf[s.Strip(true)] {
+					return
+				}
+				if s.Kind == px.KBinOp && s.Op == token.QUO && s.Typ != nil {
+					if b, ok := s.Typ.Underlying().(*types.Basic); ok && b.Info()&types.IsFloat == 0 {
+						bad = "a division in " + b.Name() + " arithmetic"
+					}
+				}
+				if s.Kind == px.KBinOp || s.Kind == px.KConvert || s.Kind == px.KUnOp {
+					walk(s.X, d+1)
+					if s.Y != nil {
+						walk(s.Y, d+1)
+					}
+				}
+			}
+			walk(e.Val, 0)
+			if bad != "" {
+				return false, "windowScale is computed with " + bad + ": the quotient is truncated before it becomes a float"
+			}
+			got := anf(p, e.Val, func(s *px.Sym) string {
+				if a := p.Abs(s); a.K == px.ConstV {
+					return ""
+				}
+				if s.Kind == px.KBinOp && s.Op == token.QUO {
+					// bucketDuration = window / buckets
+					return ""
+				}
+				return ""
+			}).String()
+			if !strings.Contains(got, "1000000000") || !strings.HasSuffix(got, "/(1000)") {
+				return false, "windowScale is not (1s / bucketDuration) / 1000: " + got
+			}
+		}
+		return true, ""
+	})
+	if held && seen == 0 {
+		c.R.Undecided(rule, "core/load.NewAdaptiveShedder#windowScale", "anchor resolves", "no store to windowScale found")
+	}
 }
